@@ -68,6 +68,37 @@ def sql_setitem_writes_uri(ctx, R, rule_id):
             "replaces it" % urivar)
 
 
+def sql_setitem_replaces_metadata(ctx, R, rule_id):
+    """obligation: SqlStorage.__setitem__ replaces the tags of an existing name whatever the new tags are: the statement that removes the old metadata rows
+    (DELETE on pyro_metadata, or on pyro_names whose rows the metadata rows reference) is not conditional on the new metadata (MemoryStorage stores the new
+    value outright: registering without tags over a tagged entry leaves no tags)"""
+    from .c03 import edge_has_fact
+    si = ctx.p.cls("Pyro5.nameserver.SqlStorage").methods.get("__setitem__")
+    if si is None:
+        raise AnalysisError("SqlStorage.__setitem__ vanished")
+    scfg = ctx.cfg(si)
+    valp = si.params[2]
+    unp = [n for n in walk_no_nested(si.node) if isinstance(n, ast.Assign) and isinstance(n.targets[0], ast.Tuple) and unparse(n.value) == valp]
+    if not unp:
+        raise AnalysisError("SqlStorage.__setitem__: `uri, metadata = value` vanished")
+    metavar = unp[0].targets[0].elts[1].id
+    deletes = []
+    for c in walk_no_nested(si.node):
+        if isinstance(c, ast.Call) and isinstance(c.func, ast.Attribute) and c.func.attr == "execute" and c.args:
+            okc, sqltext = ctx.const(c.args[0], si)
+            if okc and isinstance(sqltext, str) and sqltext.strip().upper().startswith("DELETE") and ("PYRO_METADATA" in sqltext.upper() or "PYRO_NAMES" in sqltext.upper()):
+                deletes.append(c)
+
+    def about_new_tags(atom, pol):
+        return any(isinstance(x, ast.Name) and x.id == metavar for x in ast.walk(atom))
+    free = [c for c in deletes if not any(scfg.guarded(n, lambda e: edge_has_fact(e, about_new_tags)) for n in ctx.node_of(si, c))]
+    R.check(bool(free), rule_id, "SqlStorage.__setitem__|replaces-metadata-whatever-the-new-tags", "the old metadata rows of an existing name are removed on a path that does not depend on the new metadata",
+            si.loc(deletes[0]) if deletes else si.loc(),
+            ("the only statement(s) removing the old tags (`%s`) run under a test of the new metadata `%s`: overwriting a tagged entry with no tags keeps the old tags on sqlite, "
+             "while the in-memory storage drops them" % (unparse(deletes[0], 60), metavar)) if deletes else
+            "__setitem__ never deletes the previous metadata rows of the name: old tags survive an overwrite")
+
+
 def classname_defs(fn_node):
     """assignments `name = <expr containing data.get("__class__", ...) or data["__class__"]>` (the class tag may be passed through a decoding helper)"""
     out = []
